@@ -226,6 +226,33 @@ fn judge_instr_case(name: &str, s: &StateSpec) -> CaseResult {
     Ok(o)
 }
 
+/// random ORDER of (ntotal, ndim, centre, radius) queries on each thread: a result must not
+/// depend on which query was answered before (derived values remembered between calls)
+fn random_order(ctx: &Ctx, n: u64) -> SubReport {
+    run_sharded(
+        ctx,
+        "random-order-queries",
+        n,
+        || prop::collection::vec((1usize..=150, 1usize..=5, any::<u16>(), prop::sample::select(radii())), 1..12),
+        |qs: &Vec<(usize, usize, u16, f32)>| {
+            let mut h = Fnv::new();
+            for (nt, nd, pick, r) in qs {
+                let c = gen::pick_index(*pick, *nt);
+                h.u64(*nt as u64);
+                h.u64(*nd as u64);
+                h.u64(c as u64);
+                let got = guarded(|| Topology::find_neighbors(nt, nd, &c, r)).map_err(|(l, m)| Fail::new(format!("C20/find_neighbors/panic@{}", l), m))?;
+                let want = neighbours(*nt, *nd, c, *r as f64);
+                if got.map(|v| v.values) != want {
+                    return Err(Fail::new("C20/neighbour-set-depends-on-query-order", format!("query (ntotal {}, ndim {}, centre {}, radius {}) inside the sequence {:?} differs from the brute-force set", nt, nd, c, r, qs.iter().map(|q| (q.0, q.1)).collect::<Vec<_>>())));
+                }
+            }
+            Ok(CaseOut::new(qs.len() >= 3, h.0))
+        },
+        |qs| json!({"queries": qs.iter().map(|(a, b, c, d)| json!([a, b, c, fjson(*d)])).collect::<Vec<_>>()}),
+    )
+}
+
 pub fn run(ctx: &Ctx) -> PropReport {
     let mut rep = PropReport::new(
         "exhaustive grid: ntotal 1..64 (quick) / 1..216 (thorough) x ndim 1..4 (5) x every centre x ten radii (integers and mid-points between lattice distances) plus perfect powers e^d and their neighbours; decompose_index for every index of every hypercube with edge^dim <= 4096; out-of-domain arguments; LIST.NEIGHBOR* with operand tuples incl. negative, oversized, NaN; non-trivial = ntotal >= 3 (grid), hypercube with >= 4 cells, operands present and value compared (instructions)",
@@ -235,7 +262,9 @@ pub fn run(ctx: &Ctx) -> PropReport {
     rep.push(grid(ctx));
     rep.push(decompose(ctx));
     rep.push(robustness(ctx));
-    rep.push(run_sharded(ctx, "instructions", ctx.tier.pick(30_000, 600_000), instr_strategy, |(n, s): &(String, StateSpec)| judge_instr_case(n, s), |(n, s)| json!({"instruction": n, "state": s.to_json(), "brief": s.brief()})));
+    rep.push(random_order(ctx, ctx.tier.pick(30_000, 300_000)));
+    rep.push(run_sharded(ctx, "instructions", ctx.tier.pick(150_000, 1_000_000), instr_strategy, |(n, s): &(String, StateSpec)| judge_instr_case(n, s), |(n, s)| json!({"instruction": n, "state": s.to_json(), "brief": s.brief()})));
+    rep.push(crate::props::incontext::run(ctx, ctx.tier.pick(40_000, 600_000)));
     rep
 }
 
@@ -256,6 +285,17 @@ pub fn replay(_ctx: &Ctx, sub: &str, case: &Value) -> Result<(), Fail> {
         let name = case.get("instruction").and_then(|x| x.as_str()).ok_or_else(bad)?;
         let s = StateSpec::from_json(case.get("state").ok_or_else(bad)?).ok_or_else(bad)?;
         return judge_instr_case(name, &s).map(|_| ());
+    }
+    if let Some(qs) = case.get("queries").and_then(|x| x.as_array()) {
+        for q in qs {
+            let (nt, nd, c, r) = (q.get(0).and_then(|x| x.as_u64()).unwrap_or(1) as usize, q.get(1).and_then(|x| x.as_u64()).unwrap_or(1) as usize, q.get(2).and_then(|x| x.as_u64()).unwrap_or(0), q.get(3).and_then(fparse).unwrap_or(0.0));
+            let c = gen::pick_index(c as u16, nt);
+            let got = guarded(|| Topology::find_neighbors(&nt, &nd, &c, &r)).map_err(|(l, m)| Fail::new(format!("C20/find_neighbors/panic@{}", l), m))?;
+            if got.map(|v| v.values) != neighbours(nt, nd, c, r as f64) {
+                return Err(Fail::new("C20/neighbour-set-depends-on-query-order", format!("query ({}, {}, {}, {})", nt, nd, c, r)));
+            }
+        }
+        return Ok(());
     }
     if let (Some(n), Some(d)) = (case.get("ntotal").and_then(|x| x.as_u64()), case.get("ndim").and_then(|x| x.as_u64())) {
         if sub == "exhaustive-grid" {
